@@ -304,6 +304,10 @@ class Resolver:
         for n in names:
             if not isinstance(n, Sym):
                 raise CompileError("bad parameter")
+        allp = names + ([rest] if rest is not None else [])
+        if len(set(allp)) != len(allp):
+            # a parameter that occurs twice: "it is an error" (R7RS 4.1.4), i.e. nothing is pinned down
+            raise Budget()
         return names, rest
 
     def x(self, e, sc, name=None):
